@@ -1187,7 +1187,7 @@ def build_tasks(ctx, tasks):
     for cul in CULTURES:
         for q in BOUNDARY.get(cul, []):
             out.append((cul, q, REF))
-    per = 260 if ctx.thorough else 55
+    per = 400 if ctx.thorough else 110
     by_cul = {}
     for t in tasks or []:
         if t[0] == 'DateTime' and t[2] in CULTURES and isinstance(t[3], str) and len(t[3]) <= 160:
@@ -1254,15 +1254,28 @@ def pipeline_spans(culture, q, ref):
     return [(r.start, r.end, r.text, r.type_name) for r in rs]
 
 
-def run(ctx, prop, tasks=None):
-    """unit correspondence of the sub-extractor token arithmetic + follow-up of out-of-text tokens at pipeline level"""
-    # the witnesses of the negative theorems, replayed through the compiled model
+def replay_witnesses(ctx):
+    """the witnesses of the negative theorems, replayed through the compiled model"""
     ans = common.driver([w[0] for w in WITNESSES])
     for (line, exp, what), a in zip(WITNESSES, ans):
         ctx.count('dtextract:witness')
         if a != exp:
             ctx.report('correspondence', 'dtextract-witness', 'witness %r: model answers %s, expected %s (%s)' % (line, a, exp, what),
                        failing_input={'op': line}, property_fails=False)
+
+
+def run_light(ctx, prop):
+    """C12: the witnesses and the pipeline follow-up of the leading-blank range defect (the recorded-call
+    correspondence itself runs in C01)"""
+    replay_witnesses(ctx)
+    leading_blank_followup(ctx, prop)
+
+
+def run(ctx, prop, tasks=None):
+    """unit correspondence of the sub-extractor token arithmetic + follow-up of out-of-text tokens at pipeline level"""
+    import time
+    t0 = time.time()
+    replay_witnesses(ctx)
     my = build_tasks(ctx, tasks)
     ops, dropped = unit_ops(my)
     ctx.extra['dtextract'] = {'queries': len(my), 'dropped_timeouts': dropped, 'cultures': CULTURES}
@@ -1328,6 +1341,7 @@ def run(ctx, prop, tasks=None):
     leading_blank_followup(ctx, prop)
     if lines:
         ctx.sample({'op': lines[len(lines) // 2][:300], 'model': ans[len(ans) // 2][:200]})
+    ctx.extra['dtextract']['wall_s'] = round(time.time() - t0, 1)
 
 
 def leading_blank_followup(ctx, prop):
